@@ -93,6 +93,7 @@ def _accessors(d):
 
 REG[RW.HANDLE_WALK.target] = RW.HANDLE_WALK
 REG.add(Contract("polyply.src.linalg_functions:norm_sphere", params=dict(values=TInt), result=TList(V3),
+                 requires={"a non-negative number of directions (numpy raises ValueError otherwise)": "values >= 0"},
                  ensures={"as many directions as asked for": "len(result) == values"},
                  defines={"ghost: definition of 'one of the vectors handed in'": "member_def(result)"},
                  spec_fns=dict(member_def=lambda b: RW.member_def(b)), trusted=True, note="random unit vectors (numpy)"))
